@@ -408,7 +408,7 @@ func isHex(s string, n int) bool {
 }
 
 var (
-	mintStates  = map[string]bool{"UNPAID": true, "PAID": true, "ISSUED": true, "PENDING": true}
+	mintStates  = map[string]bool{"UNPAID": true, "PAID": true, "ISSUED": true} // NUT-04
 	meltStates  = map[string]bool{"UNPAID": true, "PENDING": true, "PAID": true}
 	proofStates = map[string]bool{"UNSPENT": true, "PENDING": true, "SPENT": true}
 )
@@ -578,8 +578,10 @@ func (w *WSeq) canonAndMonitor(q *wreq, res *wres) {
 	switch q.Kind {
 	case "mintquote", "quotestate":
 		if w.need(q, jv, "mint quote", map[string]byte{"quote": 's', "request": 's', "amount": 'n', "unit": 's', "state": 's', "expiry": 'n'}, map[string]byte{"pubkey": 's'}) {
-			if !mintStates[jv.get("state").S] {
-				w.shapeFail(q, "state "+jv.get("state").S)
+			if st := jv.get("state").S; st == "PENDING" {
+				w.c.MonitorFail("C20", "C20/shape/quotestate/mint-quote-state-PENDING", "a mint quote was reported in state PENDING, which NUT-04 (UNPAID, PAID, ISSUED) does not list", w.replay())
+			} else if !mintStates[st] {
+				w.shapeFail(q, "state "+st)
 			}
 			if jv.get("unit").S != "sat" {
 				w.shapeFail(q, "unit "+jv.get("unit").S)
